@@ -55,8 +55,65 @@ func (d *dumper) parseContracts(p *packages.Package, lines []*contractSrc, decls
 		loops := collectLoops(fd)
 		cur["nloops"] = len(loops)
 		var cl []any
-		for _, c := range clauses {
-			cl = append(cl, d.checkClause(p, fd, loops, c))
+		results := make([]map[string]any, len(clauses))
+		for i, c := range clauses {
+			results[i] = d.checkClause(p, fd, loops, c)
+		}
+		// Loop clauses are keyed by loop ordinal. When a refactoring inserts or removes a loop the ordinals shift: if
+		// the clauses of ordinal N no longer type-check at loop N but all of them do at another loop (nearest first),
+		// they are re-bound there (recorded as rebound_from).
+		groups := map[int][]int{}
+		for i, c := range clauses {
+			if c.loop > 0 {
+				groups[c.loop] = append(groups[c.loop], i)
+			}
+		}
+		firstBad := 0
+		for n, idxs := range groups {
+			for _, i := range idxs {
+				if results[i]["err"] != nil && (firstBad == 0 || n < firstBad) {
+					firstBad = n
+				}
+			}
+		}
+		if firstBad > 0 {
+			for _, shift := range []int{1, -1, 2, -2, 3} {
+				ok := true
+				alt := map[int]map[string]any{}
+				for n, idxs := range groups {
+					if n < firstBad {
+						continue
+					}
+					m := n + shift
+					if m < 1 || m > len(loops) {
+						ok = false
+						break
+					}
+					for _, i := range idxs {
+						c2 := *clauses[i]
+						c2.loop = m
+						r := d.checkClause(p, fd, loops, &c2)
+						if r["err"] != nil {
+							ok = false
+							break
+						}
+						r["rebound_from"] = n
+						alt[i] = r
+					}
+					if !ok {
+						break
+					}
+				}
+				if ok {
+					for i, r := range alt {
+						results[i] = r
+					}
+					break
+				}
+			}
+		}
+		for _, r := range results {
+			cl = append(cl, r)
 		}
 		cur["clauses"] = cl
 		out[curKey] = cur
